@@ -158,7 +158,12 @@ Section Adf.
     | KValue v => OFun (fun vs => match vs with [] => Some v | _ => None end)
     | KLambda _ _ _ => OFun (fun _ => None)
     end.
+  (* the primitive-set object of a model definition *)
+  Definition fp_of (d : adfdef V) : fpset := mkfp (d_ps d) (d_name d) (d_ctx d).
 End Adf.
+(* Python's None for "no tree compiled" and an exception are one value of the model *)
+Definition flat {A} (r : option (option A)) : option A := match r with Some (Some k) => Some k | _ => None end.
+Arguments fp_of {V} d.
 Arguments mkfp {V} fp_ps fp_name fp_ctx.
 Arguments fp_ps {V} f.
 Arguments fp_name {V} f.
